@@ -592,6 +592,59 @@ VARIANTS += [
     M("exh-transfer-no-test", EXH, "            if species_lca.is_ancestor_of(other_target, transfer_target):\n                continue\n", "", "ENUM-PLACEMENTS"),
     T("twin-exh-comparable-test", EXH, "            if species_lca.is_ancestor_of(other_target, transfer_target):", "            if species_lca.is_comparable(other_target, transfer_target):"),
 ]
+# ---- fourth round: rules derived from the mutation sweep and the fourth batch of seeded changes
+VARIANTS += [
+    M("model-costs-guard-negated", MODEL, 'if "costs" in data:', 'if "costs" not in data:', "KEY-GUARD"),
+    M("model-mapping-guard-negated", MODEL, 'if "leaf_object_species" in data:', 'if "leaf_object_species" not in data:', "KEY-GUARD"),
+    T("twin-model-costs-guard-early-default", MODEL, '        if "costs" in data:\n            costs = {}\n',
+      '        costs = {}\n\n        if "costs" in data:\n'),
+    M("model-cost-name-wrong-enum", MODEL, "if hasattr(NodeEvent, event):", "if hasattr(EdgeEvent, event):", "COST-KEY-RESOLUTION"),
+    M("model-cost-isinstance-negated", MODEL, "if isinstance(event, (NodeEvent, EdgeEvent)):", "if not isinstance(event, (NodeEvent, EdgeEvent)):", "COST-KEY-RESOLUTION"),
+    M("model-cost-key-unresolved", MODEL, "event_enum = getattr(EdgeEvent, event)", "event_enum = event", "COST-KEY-RESOLUTION"),
+    T("twin-model-cost-name-subscript", MODEL, "event_enum = getattr(NodeEvent, event)", "event_enum = NodeEvent[event]"),
+    M("model-cost-int", MODEL, "                costs[event_enum] = value\n", "                value = int(value)\n                costs[event_enum] = value\n", "COST-PASSTHROUGH"),
+    M("model-binarize-or", MODEL, "if is_binary(self.object_tree) and is_binary(self.species_lca.tree):", "if is_binary(self.object_tree) or is_binary(self.species_lca.tree):", "BINARIZE-GUARD"),
+    M("model-binarize-product-swapped", MODEL, "            binarize(self.object_tree),\n            binarize(self.species_lca.tree),\n", "            binarize(self.species_lca.tree),\n            binarize(self.object_tree),\n", "BINARIZE-GUARD"),
+    T("twin-model-binarize-conjuncts", MODEL, "if is_binary(self.object_tree) and is_binary(self.species_lca.tree):", "if is_binary(self.species_lca.tree) and is_binary(self.object_tree):"),
+    Variant("spfs-output-unordered", SPFS, [("ordered=True", "ordered=False")], ("OUTPUT-FLAG",), every=True),
+    Variant("uspfs-output-ordered", USPFS, [("ordered=False", "ordered=True")], ("OUTPUT-FLAG",), every=True),
+    M("entry-ctor-policy-arms", DP, "merge_policy if merge_policy is not None else MergePolicy.MIN", "MergePolicy.MIN if merge_policy is not None else merge_policy", "ENTRY-CTOR"),
+    M("entry-ctor-retention-arms", DP, "                retention_policy\n                if retention_policy is not None\n                else RetentionPolicy.NONE",
+      "                RetentionPolicy.NONE\n                if retention_policy is not None\n                else retention_policy", "ENTRY-CTOR"),
+    M("entry-ctor-short-policies-swapped", DP, "            self._merge_policy = value\n            self._retention_policy = infos", "            self._merge_policy = merge_policy\n            self._retention_policy = retention_policy", "ENTRY-CTOR"),
+    T("twin-entry-ctor-test-order", DP, "            merge_policy is None\n            and retention_policy is None\n", "            retention_policy is None\n            and merge_policy is None\n"),
+    M("topo-all-limit", TOPO, "    for node_from in starts:\n        next_starts = set(starts)", "    for node_from in starts:\n        if len(results) >= 10000:\n            break\n\n        next_starts = set(starts)", "ENUM-NO-TRUNCATION"),
+    M("exh-dedupe-by-hash", EXH, "    for output in generate_all(rec_input):\n        results.update(Candidate(output.cost(), output))",
+      "    seen = set()\n\n    for output in generate_all(rec_input):\n        if hash(output) in seen:\n            continue\n\n        seen.add(hash(output))\n        results.update(Candidate(output.cost(), output))", "HASH-IDENTITY"),
+    M("thl-skip-transfers-by-cost", REC, "        elif not species_lca.is_ancestor_of(other_species, root_species):", "        elif hgt_cost <= dup_cost + 2 * loss_cost and not species_lca.is_ancestor_of(other_species, root_species):", "COST-GUARD"),
+    M("triples-newick-copy", TREES, "    leaves = [leaf.name for leaf in tree.get_leaves()]\n    tree = tree.copy()", "    leaves = [leaf.name for leaf in tree.get_leaves()]\n    tree = tree.copy(\"newick\")", "COPY-FAITHFUL"),
+    T("twin-triples-cpickle-copy", TREES, "    leaves = [leaf.name for leaf in tree.get_leaves()]\n    tree = tree.copy()", "    leaves = [leaf.name for leaf in tree.get_leaves()]\n    tree = tree.copy(\"cpickle\")"),
+    M("synteny-width-widened", SYN, "        result = balanced_wrap(result, width)", "        width = max(width, 8)\n        result = balanced_wrap(result, width)", "WIDTH-VERBATIM"),
+    M("synteny-width-computed", SYN, "        result = balanced_wrap(result, width)", "        result = balanced_wrap(result, width + 1)", "WIDTH-VERBATIM"),
+    M("tikz-leaf-mapping", TIKZ, "            rec.object_species,\n", "            rec.input.leaf_object_species,\n", "LEAF-MAP-DOMAIN"),
+    M("topo-none-unguarded", TOPO, "    if len(result) == len(graph):\n        return result\n\n    return None", "    if result:\n        return result\n\n    return None", "TOPO-VERDICT"),
+    T("twin-topo-early-return", TOPO, "        result.append(node_from)\n", "        result.append(node_from)\n\n        if len(result) == len(graph):\n            return result\n"),
+    T("twin-topo-verdict-else", TOPO, "    if len(result) == len(graph):\n        return result\n\n    return None", "    if len(result) != len(graph):\n        return None\n\n    return result"),
+    M("spfs-root-order-sorted", SPFS, "            root_orderings = (leaf_syntenies[synteny_tree],)", "            root_orderings = (sorted(leaf_syntenies[synteny_tree]),)", "ROOT-ORDER-SOURCE"),
+    T("twin-spfs-root-order-list", SPFS, "            root_orderings = (leaf_syntenies[synteny_tree],)", "            root_orderings = (list(leaf_syntenies[synteny_tree]),)"),
+    M("graft-ignore-by-name", TREES, "tree.get_topology_id() not in ignore", "tree.name not in ignore", "NAME-AS-KEY"),
+    M("arrange-ignore-by-name", TREES, "ignore=set(leaf.get_topology_id() for leaf in leaves[1:])", "ignore=set(leaf.name for leaf in leaves[1:])", "NAME-AS-KEY"),
+    M("uspfs-lca-sets-unpack-synteny", USPFS, "                .difference(*(gain_sets[child] for child in object_node.children))",
+      "                .difference(*gain_sets[object_node.children[0]], *gain_sets[object_node.children[1]])", "SET-ALGEBRA-ARGS"),
+    M("synteny-sort-key-filtered", SYN, "        parts = DIGITS.split(obj)", "        parts = filter(None, DIGITS.split(obj))", "SORT-KEY-ALIGNED"),
+    T("twin-synteny-sort-key-alias", SYN, "        parts = DIGITS.split(obj)", "        pieces = DIGITS.split(obj)\n        parts = pieces"),
+    M("triples-lazy-group", TREES, "        group_triples = [\n            triple for triple in triples if all(leaf in group_leaves for leaf in triple)\n        ]",
+      "        group_triples = (\n            triple for triple in triples if all(leaf in group_leaves for leaf in triple)\n        )", "ITERATOR-REUSE"),
+    M("rmq-levels-short", RMQF, "levels = _ilog2(length) + 1", "levels = _ilog2(length - 1) + 1", "RMQ-WINDOWS"),
+    M("rmq-levels-ceil-log", RMQF, "levels = _ilog2(length) + 1", "levels = max(1, (length - 1).bit_length())", "RMQ-WINDOWS"),
+    T("twin-rmq-levels-bit-length", RMQF, "levels = _ilog2(length) + 1", "levels = length.bit_length()"),
+    M("prec-graph-overwrite", SPFS, "            prec[gene_1].add(gene_2)", "            prec[gene_1] = {gene_2}", "GRAPH-KEYS"),
+    Variant("layout-leaf-label-parent", LAYOUT, [
+        ("                if root_gene in syntenies\n                else \"\"\n            )\n            equal_to_parent = syntenies.get(root_gene) == syntenies.get(root_gene.up)\n",
+         "                if root_gene in syntenies and not equal_to_parent\n                else \"\"\n            )\n"),
+        ("            synteny = (\n                format_synteny(", "            equal_to_parent = syntenies.get(root_gene) == syntenies.get(root_gene.up)\n            synteny = (\n                format_synteny("),
+    ], ("LABEL-OMIT",)),
+]
 # the CLI twin needs a second edit (label in reconcile)
 for _v in VARIANTS:
     if _v.name == "twin-cli-label-in-reconcile":
@@ -743,6 +796,8 @@ CANARY_RULES = (
     "COPY-BEFORE-MUTATE", "FRESH-ATTACH", "FRESH-STARTS", "ESCAPE-TAINT", "PREORDER-STATE", "TABLE-FRESH-CELLS",
     "NONE-SENTINEL-TRUTH", "OPTIONAL-CHECKED", "NO-TOPOLOGY-WRITE", "ELEMENT-UPDATE", "RESULT-UNCONDITIONAL",
     "FIELD-SOURCE", "SORT-KEY-ALIGNED", "ENTRY-OWNS-TAGS",
+    "KEY-GUARD", "HASH-IDENTITY", "COST-GUARD", "COPY-FAITHFUL", "NAME-AS-KEY", "ENUM-NO-TRUNCATION", "SET-ALGEBRA-ARGS",
+    "LEAF-MAP-DOMAIN", "WIDTH-VERBATIM", "TOPO-VERDICT", "ROOT-ORDER-SOURCE",
 )
 
 MEMO_CANARY = Variant(
